@@ -1,4 +1,64 @@
-(* placeholder until the proofs are integrated *)
-From LLTD Require Import BufProofs.
-Theorem C06_placeholder : True. Proof. exact I. Qed.
-Print Assumptions C06_placeholder.
+(* C06: Emit executed descriptor by descriptor, then acknowledged; bounded.
+   Statements only: each theorem restates the full type of a lemma proved in coq/proofs and is closed by
+   `exact`; Print Assumptions beneath.  Regenerate with bin/genprops.py after a lemma changes. *)
+From LLTD Require Import BlockFun PropsEmit.
+
+Theorem C06_emit_sequence :
+  forall (ctx : N) (c : pcfg) (g : gcfg) (mtu : N),
+  (576 <= mtu <= 9216)%N ->
+  forall (s : ist) (buf : list N) (h : hdr),
+  parse_hdr buf = Some h ->
+  h_tos h = tos_discovery ->
+  h_opc h = opcode_emit ->
+  (1 <= h_w0 h)%N ->
+  (h_w0 h <= (mtu - 34) / 14)%N ->
+  o mtu <= length buf ->
+  let ds := spec_descs buf (o (h_w0 h)) in
+  Forall (fun d : emitee => d_type d = 0%N \/ d_type d = 1%N) ds ->
+  active s = Some (h_rsrc h) ->
+  snd (f_step ctx c g mtu s buf) =
+  flat_map (fun d : emitee => [Sleep (d_pause d); tx ctx (probe_frame c d)]) ds ++
+  [tx ctx (header_bytes (own c) (mapp s) (own c) (h_rsrc h) (h_seq h) opcode_ack tos_discovery)] /\
+  active (fst (f_step ctx c g mtu s buf)) = Some (h_rsrc h).
+Proof. exact C06_emit. Qed.
+Print Assumptions C06_emit_sequence.
+
+Theorem C06_descriptor_slicing :
+  forall (buf : list N) (n : nat),
+  34 + 14 * n <= length buf -> 14 * n < o 65536 -> read_descs buf n 0 = Some (spec_descs buf n).
+Proof. exact read_descs_spec. Qed.
+Print Assumptions C06_descriptor_slicing.
+
+Theorem C06_unknown_kinds :
+  forall (ctx : N) (c : pcfg) (g : gcfg) (mtu : N),
+  (576 <= mtu <= 9216)%N ->
+  forall (s : ist) (buf : list N) (h : hdr),
+  parse_hdr buf = Some h ->
+  h_tos h = tos_discovery ->
+  h_opc h = opcode_emit ->
+  (h_w0 h <= (mtu - 34) / 14)%N ->
+  o mtu <= length buf ->
+  let s1 := with_seq (set_active s h) (h_seq h) in
+  let ds := spec_descs buf (o (h_w0 h)) in
+  snd (f_step ctx c g mtu s buf) =
+  flat_map
+  (fun d : emitee => if kind_known d then [Sleep (d_pause d); tx ctx (probe_frame c d)] else []) ds ++
+  (if ack_due ds then [tx ctx (ack_frame c s1)] else []).
+Proof. exact C06_emit_any_frames. Qed.
+Print Assumptions C06_unknown_kinds.
+
+Theorem C06_oversize_count_dropped :
+  forall (ctx : N) (c : pcfg) (g : gcfg) (mtu : N) (s : ist) (buf : list N) (h : hdr),
+  parse_hdr buf = Some h ->
+  h_tos h = tos_discovery ->
+  h_opc h = opcode_emit -> (h_w0 h > (mtu - 34) / 14)%N -> f_step ctx c g mtu s buf = (s, []).
+Proof. exact C06_nofit. Qed.
+Print Assumptions C06_oversize_count_dropped.
+
+Theorem C06_transmission_bound :
+  forall (ctx : N) (c : pcfg) (g : gcfg) (mtu : N) (s : ist) (buf : list N) (h : hdr),
+  parse_hdr buf = Some h ->
+  h_tos h = tos_discovery ->
+  h_opc h = opcode_emit -> count_sends (snd (f_step ctx c g mtu s buf)) <= o ((mtu - 34) / 14) + 1.
+Proof. exact C06_bound. Qed.
+Print Assumptions C06_transmission_bound.
